@@ -15,3 +15,10 @@ Check c03_expired_sub_gets_nothing : forall db now changed s,
 Check c03_expired_sub_removed : forall now s,
   cs_registered s = true -> expired (cs_perms s) now = true ->
   cs_registered (cleanup_csub now s) = false.
+From KD Require Model.Api.
+Check c03_v1_subscribe_only_readable : forall st p path fl st' h,
+  Api.v1_subscribe st p path fl = (st', inl h) ->
+  exists es, Api.v1_sub_entries st p path fl = inl es /\ subscribe st p es None = (st', inl h) /\
+             forall id f, In (id, f) es ->
+               exists e, In (id, e) (entries (st_db st)) /\ f = fl /\
+                         can_read p (st_now st) (path_segs (e_meta e)) = POk.
